@@ -473,13 +473,14 @@ def verify_contract(contract, timeout_ms=10000, max_paths=400, only=None):
             diff = heap_diff(snap, ctx.heap)
             bad = diff - allowed
             obls.append(("frame", not bad if not bad else False))
+            out_repr = repr(out)[:2000]
             for name, formula in obls:
                 if only and not any(name.startswith(o) for o in only):
                     continue
                 r = check_valid(ctx, formula, timeout_ms, B.vars, getattr(ctx.sink, "uf_apps", []))
                 r["name"] = f"{name}@{pid}"
                 r["clause"] = name
-                r["outcome"] = repr(out)
+                r["outcome"] = out_repr
                 r["decisions"] = list(ctx.taken)
                 if name == "frame" and bad:
                     r["frame_violation"] = sorted(f"{oid}.{fld}" for oid, fld in bad)
